@@ -21,11 +21,15 @@ def sha(b) -> str:
     return hashlib.sha256(b).hexdigest()[:20]
 
 
+PERTURBED = {}  # knob -> how many of the requested pieces of earlier work were actually carried out
+
+
 def perturb(cfg):
     """Unrelated earlier work: allocations (shifts object addresses) and elaborations (fills the global caches)."""
     import hdl21 as h
 
     junk = []
+    PERTURBED.clear()
     r = random.Random(cfg.get("junk_alloc", 0))
     for k in range(cfg.get("junk_alloc", 0)):
         junk.append([object() for _ in range(r.randint(1, 50))])
@@ -36,12 +40,32 @@ def perturb(cfg):
         m.add(h.Signal(width=3), name="s")
         m.add(h.Instance(of=h.R(r=k + 1))(p=m.s[0], n=m.s[1]), name="r")
         h.elaborate(m)
+    # unrelated exports of designs whose external modules are NAMED like the program's (same domain and name: another view of the
+    # same cell library, or a notebook cell re-run after editing) but declare other ports, parameters and spice types
+    for k in range(cfg.get("junk_ext", 0)):
+        try:
+            from hv import refsem
+
+            m = h.Module(name=f"JunkExt{k}")
+            m.add(h.Signal(), name="one")
+            for j, (lname, d) in enumerate(sorted(refsem.LEAVES.items())):
+                if d.get("kind") != "ext":
+                    continue
+                x = h.ExternalModule(name=d.get("extname", lname), domain=d.get("domain", "hvlib"), port_list=[h.Input(name="only"), h.Output(name="other")],
+                                     paramtype=h.HasNoParams)
+                m.add(h.Instance(of=x())(only=m.one, other=m.one), name=f"x{j}")
+            pkg = h.to_proto(m)
+            h.netlist(pkg, io.StringIO(), fmt="spice")
+            PERTURBED["junk_ext"] = PERTURBED.get("junk_ext", 0) + 1
+        except Exception:
+            pass
     # unrelated PDK compiles of devices whose sizes are numerically equal to, but written differently from, the program's
     for k in range(cfg.get("junk_pdk", 0)):
         for kind in PDKS:
             try:
                 t = pdk_design(kind, f"JunkPdk{k}", alt=k + 1)
                 pdk_module(kind).compile(t)
+                PERTURBED["junk_pdk"] = PERTURBED.get("junk_pdk", 0) + 1
             except Exception:
                 pass
     # unrelated calls of the built-in generators with parameters EQUAL to the program's, written differently, and an unrelated
@@ -52,6 +76,7 @@ def perturb(cfg):
             from hdl21.prefix import MILLI
 
             Series(unit=h.R(r=1000 * MILLI), conns=("p", "n"), nser=2)
+            PERTURBED["junk_gen_spell"] = PERTURBED.get("junk_gen_spell", 0) + 1
         except Exception:
             pass
     for k in range(cfg.get("junk_gen_compile", 0)):
@@ -62,6 +87,7 @@ def perturb(cfg):
             t.a, t.b, t.g, t.v = h.Signal(), h.Signal(), h.Signal(), h.Signal()
             t.st = MosStack(unit=h.Nmos(), nser=2)(d=t.a, s=t.b, g=t.g, b=t.v)
             pdk_module("sky130").compile(t)
+            PERTURBED["junk_gen_compile"] = PERTURBED.get("junk_gen_compile", 0) + 1
         except Exception:
             pass
     if not cfg.get("gc", True):
@@ -133,7 +159,7 @@ def run(seed, n, cfg):
     from hv import build
 
     keep = perturb(cfg)
-    res = {}
+    res = {"__perturbed__": dict(PERTURBED)}
     for idx, (label, d) in enumerate(designs(seed, n)):
         d = directed(d)
         entry = {}
